@@ -45,7 +45,7 @@ SELFTEST_N = 3
 SHP = {"s": (), "3": (3,), "2x2": (2, 2), "1x3": (1, 3)}
 SHN = ["s", "3", "2x2", "1x3"]
 OUT = {"s": (), "2": (2,), "2x3": (2, 3)}
-KINDS = ["pure", "nn", "em", "sib"]
+KINDS = ["pure", "nn", "em", "sib", "nn_tied"]     # nn_tied: one Parameter registered in two sub-modules
 XB = [(), (4,), (2, 1)]
 DT = torch.float64
 
@@ -122,6 +122,28 @@ class World:
             self.module = NN(theta0)
             self.fcn = self.module.forward
             self.theta_leaf = self.module.theta
+        elif self.kind == "nn_tied":
+            class Sub(torch.nn.Module):
+                def __init__(self, th):
+                    super().__init__()
+                    self.theta = th
+
+            class NNTied(torch.nn.Module):
+                def __init__(self, th):
+                    super().__init__()
+                    par = torch.nn.Parameter(th)
+                    self.enc = Sub(par)
+                    self.dec = Sub(par)          # the SAME Parameter under a second name (tied weights)
+
+                def forward(self, *params):
+                    return fn(params, 0.5 * (self.enc.theta + self.dec.theta))
+
+                @property
+                def theta(self):
+                    return self.enc.theta
+            self.module = NNTied(theta0)
+            self.fcn = self.module.forward
+            self.theta_leaf = self.module.enc.theta
         else:
             class EM(xitorch.EditableModule):
                 def __init__(self, a):
@@ -155,7 +177,7 @@ class World:
         """the tensor object currently installed as the object parameter"""
         if self.kind == "pure":
             return self.theta_const
-        if self.kind == "nn":
+        if self.kind in ("nn", "nn_tied"):
             return self.module.theta
         return self.module.b
 
